@@ -374,3 +374,40 @@ PROPS["C09"] = dict(
         H("c09_witness_must_fail", kind="witness", tier="thorough", timeout=600, unwindset=U09),
     ],
 )
+
+U05 = {r"spec_standard|spec_simple": 70, r"build_semi_index_scalar|5build_semi_index$|simple.*build_semi_index": 70,
+       r"pfsm_process_chunk": 70, r"process_chunk_(standard|simple)": 34, r"same_words": 5,
+       r"build_semi_index_(standard|simple)_(avx2|sse2)": 6}
+
+PROPS["C05"] = dict(
+    module="c05",
+    bounds=("PFSM tables: every (state, byte); scalar/PFSM/simple builders: every string of 4, 6, 8, 10 bytes; AVX2 engine: every string of 7, 32, 33, 34, 40, 65 bytes; "
+            "SSE2 engine: every string of 16, 17, 33, 40 bytes; both encodings; dispatcher with the AVX2 probe solver-chosen; interest bits, BP bits, word counts and "
+            "final state compared with an independent restatement of the reference machine"),
+    outside="strings longer than 65 bytes (more chunks repeat the same carried-state step); aarch64 engines",
+    assumptions=["_mm{,256}_min_epu8 and _mm{,256}_sub_epi8 replaced by models.rs (Kani cannot lower simd_select / reports a spurious simd_sub overflow)"],
+    harnesses=[
+        H("c05_pfsm_tables", timeout=300, bounds="all 4 x 256 table entries"),
+        H("c05_short_len4", timeout=600, unwindset=U05, bounds="all 4-byte strings: scalar, PFSM, simple"),
+        H("c05_short_len6", timeout=900, unwindset=U05, bounds="all 6-byte strings"),
+        H("c05_short_len8", timeout=1800, unwindset=U05, tier="thorough", bounds="all 8-byte strings"),
+        H("c05_short_len10", timeout=2700, unwindset=U05, tier="thorough", bounds="all 10-byte strings"),
+        H("c05_avx2_std_33", timeout=2400, unwindset=U05, tier="quick", bounds="all strings of that length vs reference machine"),
+        H("c05_avx2_std_34", timeout=2400, unwindset=U05, tier="thorough", bounds="all strings of that length vs reference machine"),
+        H("c05_avx2_std_40", timeout=2400, unwindset=U05, tier="thorough", bounds="all strings of that length vs reference machine"),
+        H("c05_avx2_std_65", timeout=2400, unwindset=U05, tier="thorough", bounds="all strings of that length vs reference machine"),
+        H("c05_avx2_std_32", timeout=2400, unwindset=U05, tier="thorough", bounds="all strings of that length vs reference machine"),
+        H("c05_avx2_std_7", timeout=2400, unwindset=U05, tier="quick", bounds="all strings of that length vs reference machine"),
+        H("c05_sse2_std_17", timeout=2400, unwindset=U05, tier="quick", bounds="all strings of that length vs reference machine"),
+        H("c05_sse2_std_33", timeout=2400, unwindset=U05, tier="thorough", bounds="all strings of that length vs reference machine"),
+        H("c05_sse2_std_40", timeout=2400, unwindset=U05, tier="thorough", bounds="all strings of that length vs reference machine"),
+        H("c05_sse2_std_16", timeout=2400, unwindset=U05, tier="thorough", bounds="all strings of that length vs reference machine"),
+        H("c05_avx2_simple_33", timeout=2400, unwindset=U05, tier="quick", bounds="all strings of that length vs reference machine"),
+        H("c05_avx2_simple_40", timeout=2400, unwindset=U05, tier="thorough", bounds="all strings of that length vs reference machine"),
+        H("c05_sse2_simple_17", timeout=2400, unwindset=U05, tier="quick", bounds="all strings of that length vs reference machine"),
+        H("c05_sse2_simple_33", timeout=2400, unwindset=U05, tier="thorough", bounds="all strings of that length vs reference machine"),
+        H("c05_dispatch_std_34", timeout=2700, unwindset=U05, tier="thorough", bounds="dispatcher, 34 bytes", replay="trace"),
+        H("c05_dispatch_simple_34", timeout=2700, unwindset=U05, tier="thorough", bounds="dispatcher (simple), 34 bytes", replay="trace"),
+        H("c05_witness_must_fail", kind="witness", tier="thorough", timeout=600, unwindset=U05),
+    ],
+)
